@@ -48,7 +48,7 @@ ASSUMPTIONS = [
     'quick tier: 23-24 grid dates (both epoch seams +- one step, first/last dates, mid-epochs, and 8-9 seed-selected others: '
     'seed s takes the remaining dates with index = s mod 15); thorough: all 151 for every seed',
 ]
-REQUIRED_CLASSES = ['epoch:WMM2015', 'epoch:WMM2020', 'epoch:WMM2025', 'seam:2020.0', 'seam:2025.0', 'seam:last-before',
+REQUIRED_CLASSES = ['form:number-types', 'epoch:WMM2015', 'epoch:WMM2020', 'epoch:WMM2025', 'seam:2020.0', 'seam:2025.0', 'seam:last-before',
                     'end:2030.0', 'pole:north', 'pole:south', 'near-pole', 'equator', 'lat:+-1e-9', 'lon:+-180',
                     'height:-1', 'height:850', 'form:float', 'form:int', 'form:date', 'ref:selftest']
 
@@ -211,6 +211,39 @@ def job_offgrid(ctx):
             ctx.close(obs, exp, TOL, 'WMM(date, lat, lon, h): X, Y, Z = degree-12 synthesis for the date given to the constructor', key)
             ctx.seen(('ctor', repr(d), lat, lon, hk))
             ctx.cls('form:constructor')
+    # the place given in other numeric types (whole degrees and kilometres written as Python ints, numpy integers, single precision)
+    IP = [(80, 0, 100), (10, -20, 1), (48, 11, 0), (-33, 151, 0), (0, 0, 0), (-90, 0, 0), (90, 180, 5), (-45, -120, 850)]
+    carriers = [('int', int), ('numpy.int64', np.int64), ('numpy.int32', np.int32), ('numpy.float32', np.float32), ('numpy.float64', np.float64)]
+    for d in (2020.0, 2023.7, 2017):
+        name, g, h = rw.coefficients(d)
+        for (lat, lon, hk) in IP:
+            WG, WH = rw.basis(float(lat), float(lon), float(hk))
+            exp = WG @ g + WH @ h
+            for cn, cv in carriers:
+                for how in ('magnetic_field', 'constructor', 'magnetic_field, height omitted'):
+                    if how.endswith('omitted') and hk != 0:
+                        continue
+                    key = f'{how} date={d!r} lat={lat} lon={lon} h={hk} numbers as {cn}'
+                    try:
+                        if how == 'constructor':
+                            w = WMM(date=d, latitude=cv(lat), longitude=cv(lon), height=cv(hk))
+                        else:
+                            w = WMM(date=2021.5)
+                            if how.endswith('omitted'):
+                                w.magnetic_field(cv(lat), cv(lon), date=d)
+                            else:
+                                w.magnetic_field(cv(lat), cv(lon), cv(hk), date=d)
+                        obs = np.array([w.X, w.Y, w.Z], float)
+                    except TypeError:
+                        ctx.outcome(('number-type-refused', cn, how))
+                        continue
+                    except Exception as ex:
+                        ctx.evals += 1
+                        ctx.fail('WMM with the place in another numeric type returns a field', key, f'{type(ex).__name__}: {ex}'[:160], exp)
+                        continue
+                    ctx.close(obs, exp, 1.0 if cn == 'numpy.float32' else TOL, 'WMM: X, Y, Z do not depend on the numeric type carrying latitude, longitude and height', key)
+                    ctx.seen(('numtype', repr(d), lat, lon, hk, cn, how))
+                    ctx.cls('form:number-types')
     ctx.sample({'form': 'float-offgrid', 'dates': OFFGRID})
 
 
